@@ -285,16 +285,39 @@ def run_history(payload, case, idx):
         for op in case['ops']:
             k = op[0]
             rec = {}
+            before = env.snapshot()
             if k == 'load':
                 outcomes.append(env.load(op[1], op[2], plan=op[3], full=op[4]))
                 if outcomes[-1] == 2 and op[3] is None and getattr(env, 'last_error', None):
                     rec['error'] = env.last_error
+                # ---- the property itself, evaluated directly (independent of the model) ----
+                rel = op[2] if op[2] is not None else max(env.releases[op[1]])
+                had_copy = [op[1], rel] in before['finals'] and not before['incomplete']
+                after = env.snapshot()
+                new_fetches = after['fetches'][len(before['fetches']):]
+                if had_copy and new_fetches:
+                    direct.append(f'a complete local copy of {rel} existed, yet the remote was asked for {new_fetches}')
+                if outcomes[-1] == 4:
+                    direct.append(f'load {op} returned an ontology that differs from loading the served bytes directly')
+                if (op[3] is None or had_copy) and outcomes[-1] != 1:
+                    direct.append(f'a load from a healthy remote (or with a complete local copy) did not succeed: {op} -> outcome {outcomes[-1]} {getattr(env, "last_error", "")}')
+                if outcomes[-1] == 1 and [op[1], rel] not in after['finals']:
+                    direct.append(f'after a successful load of {rel} there is no copy at its cache location')
             elif k == 'clear':
                 try:
                     env.store.clear(None if op[1] is None else TYPES[op[1]])
                 except Exception as e:
                     rec['error'] = exn_name(e) + ': ' + str(e)[:200]
                     direct.append(f'clear({op[1]}) raised {rec["error"]}')
+                if op[1] is not None:
+                    after = env.snapshot()
+                    tdir = TYPES[op[1]].identifier + '/'
+                    left = [e[0] for e in after['listing'] if e[0].startswith(tdir)]
+                    gone = [e[0] for e in before['listing'] if not e[0].startswith(tdir) and e not in after['listing']]
+                    if left:
+                        direct.append(f'clear of one type left its files behind: {left}')
+                    if gone:
+                        direct.append(f'clear of one type removed or changed files of other types: {gone}')
             elif k == 'resolve':
                 try:
                     p = env.store.resolve_store_path(TYPES[op[1]], op[2])
@@ -429,9 +452,10 @@ def run_latest(payload, case, idx):
         try:
             p = env.store.resolve_store_path(TYPES[0])
             m = re.match(r'^.*/hp\.(.*)\.json$', p)
-            return {'ok': m.group(1) if m else '?' + p}
+            got = m.group(1) if m else '?' + p
+            return {'ok': got, 'direct': [] if case['tags'] and got == max(case['tags']) else [f'omitting the release selected {got!r}, the greatest tag is {max(case["tags"]) if case["tags"] else None!r}']}
         except Exception as e:
-            return {'err': exn_name(e)}
+            return {'err': exn_name(e), 'direct': [] if (not case['tags'] and exn_name(e) == 'ValueError') else [f'omitting the release raised {exn_name(e)} for tags {case["tags"]}']}
     finally:
         env.cleanup()
 
